@@ -10,6 +10,8 @@ NOTE = ('Trusted base: clang 14 semantic analysis with the build flags; boost.as
 CLAIMED = {
  'C01': ('static: field-initialisation, container-iteration, forbidden-API and mutable-global rules over clang AST/CFG facts',
          'Decides from the source that no source of run-to-run variation exists (indeterminate fields, hash/address-ordered iteration, ambient clock/random/env/thread APIs, unreset globals). Necessary conditions of deterministic replay; trace equality itself is not decided.', '4/C01'),
+ 'C02': ('static: writer/caller tables of the clock, dominating-guard proof of non-negative advance, CFG must-precede in simulation::run',
+         'Decides who may write, advance and reset the virtual clock, that every advance is by a difference proven non-negative by a dominating guard, that run() polls before every advance and advances to the front of the timer queue, and who writes the stop flag. FIFO of posted handlers (boost) and no-event-lost-after-restart are not decided.', '4/C02'),
 }
 
 NOT_YET = {}
